@@ -230,6 +230,56 @@ def run_silent_tcp(R):
     return vio, len(ids)
 
 
+MIXED_CALLS = (('read_runtime_data', ()), ('read_setting', ('grid_export_limit',)), ('write_setting', ('grid_export_limit', 77)),
+               ('read_sensor', ('vpv1',)), ('write_setting', ('eco_mode_2_switch', -1)))
+
+
+def run_overlap_mixed(transport, ka, steps, calls):
+    """Different public calls on ONE object at the same time: what reaches the inverter is, request for request, what the
+    same calls transmit when each is made alone (as a multiset: the order between callers is free) - no caller's request is
+    replaced by another caller's, none is lost, none is sent twice."""
+    import asyncio
+    import collections
+    from ..configs import make_rig
+    cfg = dict(family='ET', tag='ETU', power=3000, refused=(), battery_mode=0)
+
+    def sig(q):
+        return (q.get('fn'), q.get('reg'), q.get('count'), bytes(q['data']).hex() if q.get('data') is not None else None)
+    alone = collections.Counter()
+    for name, args in calls:
+        r = make_rig(cfg, transport, R=1, ka=ka)
+        r.call(r.inv.read_device_info)
+        l0 = len(r.dev.log)
+        r.call(getattr(r.inv, name), *args)
+        alone.update(sig(q) for q in r.dev.log[l0:])
+    r = make_rig(cfg, transport, R=1, ka=ka)
+    r.call(r.inv.read_device_info)
+    l0 = len(r.dev.log)
+
+    async def main():
+        async def one(i, name, args):
+            if i and steps:
+                await asyncio.sleep(0.0005 * steps * i)
+            try:
+                await getattr(r.inv, name)(*args)
+            except Exception:  # noqa: BLE001
+                pass
+        await asyncio.gather(*[one(i, n, a) for i, (n, a) in enumerate(calls)])
+    r.loop.kern.ntx = 0
+    r.loop.kern.tx_cap = 4000
+    r.loop.run(main())
+    together = collections.Counter(sig(q) for q in r.dev.log[l0:])
+    vio = []
+    if together != alone:
+        extra = list((together - alone).elements())[:2]
+        missing = list((alone - together).elements())[:2]
+        vio.append(('decodes/overlapping-calls', f'{[c[0] for c in calls]} at once ({transport}, ka={int(ka)}): on the wire but intended by no caller {extra}; '
+                                                 f'intended but never transmitted {missing}'))
+    if r.dev.bad:
+        vio.append(('parses/overlapping-calls', str(r.dev.bad[0][1])))
+    return vio, len(r.dev.log) - l0
+
+
 def run_overlap(ncallers, connect_latency_steps):
     """Several tasks call read_runtime_data() on ONE Modbus/TCP inverter object at the same time (they share the
     command objects the inverter builds once): every transmission on the wire carries a non-zero transaction id
@@ -342,6 +392,16 @@ def run(tier, seed, rep):
             novl += k
             for clause, cause in vio:
                 rep.add(clause, clause.split('/')[0], dict(part='overlap', callers=nc, steps=steps), dict(cause=cause))
+    import itertools
+    for tr in ('udp', 'tcp'):
+        for ka in (False, True):
+            for steps in (0, 1, 3):
+                for calls in list(itertools.combinations(MIXED_CALLS, 2)) + [MIXED_CALLS[:3], MIXED_CALLS[1:4]]:
+                    vio, k = run_overlap_mixed(tr, ka, steps, calls)
+                    novl += k
+                    for clause, cause in vio:
+                        rep.add(f'{clause}/{tr}/ka={int(ka)}', clause.split('/')[0],
+                                dict(part='overlap-mixed', transport=tr, ka=ka, steps=steps, calls=[[c[0], list(c[1])] for c in calls]), dict(cause=cause))
     jobs = []
     for name in CTORS:
         if name.endswith('read') and not name.startswith('aa55'):
@@ -403,6 +463,9 @@ def replay(r):
         vio = {}
         one(vio, r['ctor'], tuple(a))
         return dict(violations=[(k, v[0]['detail']) for k, v in vio.items()])
+    if r['part'] == 'overlap-mixed':
+        vio, k = run_overlap_mixed(r['transport'], r['ka'], r['steps'], tuple((c[0], tuple(c[1])) for c in r['calls']))
+        return dict(requests=k, violations=vio)
     if r['part'] == 'wire':
         from ..findings import Report
         rp = Report('C03')
